@@ -17,7 +17,7 @@ EXPLANATION = (
 )
 ASSUMPTIONS = ["call shapes: positional parameters passed positionally or (named ones) by keyword, keyword-only ones by name; **kwargs-style calls with names no method declares are not enumerated"]
 TRUSTED = ["compile/exec of emitted text", "CPython argument binding as modelled by the interpreter's binder"]
-BOUNDS = {"shapes": "native/gen_dispatch.py: 1-3 methods, <=3 positional, <=2 keyword-only, with/without self (thorough: a 4th positional, a 3rd keyword)"}
+BOUNDS = {"shapes": "native/gen_dispatch.py: a hand-picked family (1-3 methods, <=3 positional, <=2 keyword-only, colliding names, type[...] positions) plus, systematically, EVERY single-method shape with <=3 positionals (each positional-only or named, any number of trailing defaults) x (no / required / optional keyword-only parameter) and every pair of such shapes with <=1 positional (thorough: <=2; 5595 entry points), each as function and as method with self"}
 
 
 def tasks(tier):
@@ -46,6 +46,6 @@ MANIFEST = dict(
     category="other",
     text="Every entry point emitted by the real generator for an enumerated family of method-set shapes is verified against a contract computed from the method set, for all argument values (opaque execution); universal over inputs, bounded over shapes; two open findings (all-optional zero-argument call, reserved parameter names), two repaired ones (keywords dropped on the early-exit branches).",
     design_ref="6/C03",
-    note="Bounded over shapes (55 distinct entry points in the quick tier). Trusted: exec of emitted text behaves as the text, argument binding model. Results/exceptions of the method itself pass through because the emitted code has no try and returns the call's value.",
+    note="Bounded over shapes (about 700 entry points in the quick tier, 5600 in the thorough tier). Trusted: exec of emitted text behaves as the text, argument binding model. Results/exceptions of the method itself pass through because the emitted code has no try and returns the call's value.",
     technique="contract-based verification of generated code per instance (pyvc opaque symbolic execution of the emitted AST against Spec_D)",
 )
